@@ -58,4 +58,15 @@ var configs = map[string]propCfg{
 			"Non-trivial = (checker, program) pair in which the checker emitted a diagnostic (its suggestion-building path ran).",
 		Assumptions: []string{wellTyped, "fingerprint self-test (two dumps of an untouched tree are equal) runs in every case"},
 	},
+	"C20": {
+		Quick:    tierCfg{Shards: 8, Checks: 400, Limit: qLimit},
+		Thorough: tierCfg{Shards: 16, Checks: 8000, Limit: tLimit},
+		Floor:    100,
+		Rule: "programs as in C01 with 1-3 namesake mutations: an imported std package replaced by a generated user package with the same API (functions are user-defined, types alias the real ones), " +
+			"a package-level generic function named like a builtin, local variables/closures/types named like builtins or std packages, renames of user objects to builtin/std names. " +
+			"Oracle: for every diagnostic of an API-specific checker (subject table: hand-written checkers by hand, rule groups from the packages/builtins spelled in their Match patterns), the references spelled like the subject " +
+			"inside the flagged node (or the call whose argument is flagged) must include one that go/types resolves to the real builtin / std package; otherwise violation (checker x subject x what it resolved to). " +
+			"Non-trivial = a judged diagnostic in a program that re-declares such a name; distinct by checker x program x position.",
+		Assumptions: []string{wellTyped, "missing a diagnostic on a namesake is never a violation; only reports are judged", "method-based subjects (types) are not judged: fake packages alias the real types"},
+	},
 }
